@@ -521,7 +521,8 @@ def _sub(via, read_gpa, L, which, c):
     Person, Student, con = h.Person, h.Student, h.con
     row1 = {'id': 2, 'classtype': 'Student', 'age': L[0], 'gpa': L[1], 'course': L[2]}
     row2 = dict(row1)
-    row2[SUB_COLS[which]] = c
+    changed = 'age' if which == 0 else 'gpa' if which == 1 else 'course'     # (indexing a tuple with a symbolic int builds a symbolic str)
+    row2[changed] = c
     st = {'loads': 0}
 
     def responder(sql, args):
@@ -555,7 +556,6 @@ def _sub(via, read_gpa, L, which, c):
     if type(obj) is not Student: why.append('row of class Student loaded as another class')
     if exc is not None and not isinstance(exc, UnrepeatableReadError): why.append('T0: %s' % _exc(exc))
     observed = {'age': via == 2, 'gpa': read_gpa or via == 0 or via == 1, 'course': False}
-    changed = SUB_COLS[which]
     if _eq(row1[changed], row2[changed]) and exc is not None: why.append('T3: unchanged row raised %s' % _exc(exc))
     if exc is None:
         for n in SUB_COLS:
